@@ -45,7 +45,7 @@ class ReadOnlyFrames(Contract):
             # a residual write that originates in another read-only function is reported there
             own = [l for l in res if l.split(":")[0] == f.qual]
             foreign = [l for l in res if l.split(":")[0] != f.qual]
-            origins_listed = all(any(g.qual == l.split(":")[0] and g.name in READONLY for g in A.funcs) for l in foreign)
+            origins_listed = all(any(g.qual == l.split(":")[0] and g.name in READONLY and g.qual not in EXCLUDE for g in A.funcs) for l in foreign)
             verdict = "unsat" if not res else ("sat" if own or not origins_listed else "unsat-modulo-callee")
             d = dict(name="ReadOnlyFrames/%s::%s:modifies-nothing" % (f.path, f.qual), verdict="unsat" if verdict != "sat" else "sat", backend="effects", seconds=round(dt / max(1, len(A.funcs)), 5),
                      backends={"effects": ["unsat" if verdict != "sat" else "sat", 0.0]})
@@ -56,6 +56,15 @@ class ReadOnlyFrames(Contract):
             elif verdict == "unsat-modulo-callee":
                 d["note"] = "writes only through %s, reported there" % sorted(set(l.split(":")[0] for l in foreign))
             obl.append(d)
+        # C19: the object returned by clone() shares no attribute value with the receiver
+        for f in A.funcs:
+            if f.name == "clone" and not f.is_setter:
+                bad = sorted(f.aliases)
+                d = dict(name="ReadOnlyFrames/%s::%s:new-object-shares-no-attribute-with-receiver" % (f.path, f.qual), verdict="sat" if bad else "unsat",
+                         backend="effects", seconds=0.0, backends={"effects": ["sat" if bad else "unsat", 0.0]})
+                if bad:
+                    d["witness"] = {"aliases": bad}; d["confirmed"] = None; d["case"] = f.qual
+                obl.append(d)
         return obl
 
 
